@@ -2,6 +2,7 @@
 
 use crate::common::*;
 use crate::gen::*;
+use nalgebra::point;
 use bemodel::climatedata::{CLIMATEMETADATA, JULYRADDATA, MONTHLYRADDATA};
 use bemodel::*;
 use climate::solar;
@@ -119,6 +120,19 @@ pub fn run(ctx: &Ctx) -> i32 {
         let nref = [tr.sin() * ar.sin(), -tr.sin() * ar.cos(), tr.cos()];
         if (n.x as f64 - nref[0]).abs() > 1e-5 || (n.y as f64 - nref[1]).abs() > 1e-5 || (n.z as f64 - nref[2]).abs() > 1e-5 {
             ctx.violation("WallGeom::normal:convention", &format!("normal {:?} expected {:?} for tilt {} azimuth {}", n, nref, tilt, saz), json!({"tilt": tilt, "azimuth": saz}));
+        }
+        // the outward normal belongs to the plane and the listing sense, not to where the outline lies in the plane or
+        // at which corner its listing starts: a 5 x 3 counter-clockwise rectangle at five offsets x four starting corners
+        for (dx, dy) in [(0.0f32, 0.0f32), (10.0, 10.0), (-11.0, 0.0), (-7.0, -9.0), (3.0, -20.0)] {
+            for start in 0..4 {
+                let mut poly = vec![point![dx, dy], point![dx + 5.0, dy], point![dx + 5.0, dy + 3.0], point![dx, dy + 3.0]];
+                poly.rotate_left(start);
+                let n2 = HasSurface::normal(&geom(tilt, saz, Some([1.0, 2.0, 3.0]), poly));
+                a.n += 1;
+                if (n2.x as f64 - nref[0]).abs() > 1e-5 || (n2.y as f64 - nref[1]).abs() > 1e-5 || (n2.z as f64 - nref[2]).abs() > 1e-5 {
+                    ctx.violation("WallGeom::normal:depends-on-outline-placement", &format!("normal {:?} expected {:?} for tilt {} azimuth {} with the outline at ({}, {}) listed from corner {}", n2, nref, tilt, saz, dx, dy, start), json!({"tilt": tilt, "azimuth": saz, "outline_offset": [dx, dy], "first_corner": start}));
+                }
+            }
         }
         for lat in slat {
             for dec in sdec {
@@ -329,7 +343,7 @@ pub fn run(ctx: &Ctx) -> i32 {
     ctx.outcome_merge(&outcomes);
     ctx.finish(
         "model_checking",
-        &format!("all 365 (month, day) pairs against a calendar table (nday_from_md and nday_from_ymd); sun altitude/azimuth on the full grid latitude [-66,66] x declination [-23.45,23.45] x hour angle (-180,180) with step {} degrees against the spherical-astronomy sun vector (E,N,U) for altitudes in [1,89] (0.05 degrees; azimuth tolerance scaled by 1/cos(alt)); incidence angle for tilt 0..180 x surface azimuth -180..180 (15 degree grid) x 6 latitudes x 5 declinations x 47 hour angles against the angle between that sun vector and WallGeom::normal (also tied to ray_dir_to_sun); all 8760 hours of zonaD3.met: horizontal conservation (altitude >= 6), downward = albedo x global, beam >= 0 on the 9 standard orientations; the same three identities on the free-input grid latitude{{0,28,40.7,43.4,-35}} x day{{15,80,172,266,355}} x half hours 5..19 (model altitude >= 6) x dir{{0,20,150,250,500,900}} x dif{{0,40,150,400}} x albedo{{.2,0,.5}}; 32 zones x 9 classes x 12 months and July-day rows exist, non-negative; zone names round-trip; D3 July rows == weather file rows; D3 monthly rows == monthly sums of the radiation model on the shipped file; row label == class of the azimuth it was computed for", step),
+        &format!("all 365 (month, day) pairs against a calendar table (nday_from_md and nday_from_ymd); sun altitude/azimuth on the full grid latitude [-66,66] x declination [-23.45,23.45] x hour angle (-180,180) with step {} degrees against the spherical-astronomy sun vector (E,N,U) for altitudes in [1,89] (0.05 degrees; azimuth tolerance scaled by 1/cos(alt)); incidence angle for tilt 0..180 x surface azimuth -180..180 (15 degree grid) x 6 latitudes x 5 declinations x 47 hour angles against the angle between that sun vector and WallGeom::normal (also tied to ray_dir_to_sun; the normal also for a rectangle at five offsets in its plane x four starting corners); all 8760 hours of zonaD3.met: horizontal conservation (altitude >= 6), downward = albedo x global, beam >= 0 on the 9 standard orientations; the same three identities on the free-input grid latitude{{0,28,40.7,43.4,-35}} x day{{15,80,172,266,355}} x half hours 5..19 (model altitude >= 6) x dir{{0,20,150,250,500,900}} x dif{{0,40,150,400}} x albedo{{.2,0,.5}}; 32 zones x 9 classes x 12 months and July-day rows exist, non-negative; zone names round-trip; D3 July rows == weather file rows; D3 monthly rows == monthly sums of the radiation model on the shipped file; row label == class of the azimuth it was computed for", step),
         true,
         json!({}),
     )
